@@ -147,7 +147,9 @@ def gen_steps(rng, case, n_calls=None):
             st = {'t': 'call', 'out': out, 'env': env}
             if rng.random() < 0.12:
                 st['fail_at'] = [rng.randrange(4)]
-            elif rng.random() < 0.15 and not case.get('impure'):
+            elif rng.random() < 0.15 and not case.get('impure') and not case.get('stores'):
+                # (graphs without cache edges only: with caches the two forms may leave different entries behind, and the rest of the
+                # history would legitimately differ from the model's)
                 st['two_phase'] = True      # real side: get_hash, then get_value from its state (the model: one call)
             steps.append(st)
         elif r < 0.9:
